@@ -405,6 +405,16 @@ class EvolvableDistribution(EvolvableWrapper):
         if self.dist is None:
             raise ValueError("Distribution not initialized. Call forward first.")
 
+        # NOTE: Callers squeeze() their minibatches, restore the (batch, components)
+        # layout so one-component actions aren't broadcast against the batch dimension
+        if not isinstance(self.action_space, spaces.Discrete):
+            n_components = (
+                len(self.action_space.nvec)
+                if isinstance(self.action_space, spaces.MultiDiscrete)
+                else self.action_dim
+            )
+            action = action.reshape(-1, n_components)
+
         return self.dist.log_prob(action)
 
     def entropy(self) -> torch.Tensor:
